@@ -55,6 +55,11 @@ CLAIMS["C17"] = dict(
    text="Decides the structural clauses for all 16 patterns at once: each documented pattern has its own arm and its chrono format means the field and padding of the statement; the instant is built with DateTime::<Utc>::from_timestamp; the template function's compact table agrees; ts() reads bumped_timestamp then last_timestamp; calver_core is [YYYY, MM, DD, Patch]. Calendar arithmetic itself (chrono) and the tokenizer on composite patterns are not decided.",
    note="Trusted: rustc MIR, zfacts, the strftime semantic map in rules/c17.py.",
    ref="4/C17")
+CLAIMS["C12"] = dict(
+   technique="serde symmetry read from the MIR of the derive expansion (serialize_field / FIELDS / VARIANTS tables), must-pass-through and dominance rules for validate-before-render and validating setters, decision-table extraction for the section validators, validator-vs-resolver table comparison",
+   text="Decides structural necessary conditions of losslessness and refusal for every object and schema: symmetric, unconditional serialisation of every type in Zerv's closure; the rendered object always comes from Zerv::new whose Ok is dominated by a successful validate(); schema parts are written only by validating setters; validate cannot return Ok without the emptiness test and all three section validators, whose rejection guards cover the placement rules; the validator's accepted ts() patterns are resolvable. Byte-identical re-emission, pipe == direct and ron's own behaviour are not decided.",
+   note="Trusted: rustc MIR of serde's derive expansion, zfacts, rules/c12.py. Assumes serde derive's visitor assigns each named field to the field of that name and ron is a faithful serde format.",
+   ref="4/C12")
 REASONS = {}
 
 def main():
